@@ -220,6 +220,15 @@ def label_alignment(itf):
                     yield "W4", f"{fname}|concat-axis-1", n.lineno, f"`{ast.unparse(n)[:80]}` aligns its operands on index labels: computed arrays (positional) are matched to input rows by label, so non-default or permuted index labels scramble the result"
                 if isinstance(n.func, ast.Attribute) and n.func.attr in LABEL_ALIGNING:
                     yield "W4", f"{fname}|{n.func.attr}", n.lineno, f"`{ast.unparse(n)[:80]}` aligns on index labels on the result path"
+                if t in ("pd.DataFrame", "pandas.DataFrame") and n.args and isinstance(n.args[0], ast.Dict) and sum(1 for k in n.args[0].keys if k is None) >= 2:
+                    # {**data, **results}: positional only while `results` holds plain arrays; once it has been turned into a
+                    # pandas object its own (fresh) index is aligned with the caller's index labels
+                    for k, v in zip(n.args[0].keys, n.args[0].values):
+                        if k is None and isinstance(v, ast.Name):
+                            for st in ast.walk(fd):
+                                if isinstance(st, ast.Assign) and st.lineno < n.lineno and any(isinstance(tg, ast.Name) and tg.id == v.id for tg in st.targets) \
+                                        and isinstance(st.value, ast.Call) and ast.unparse(st.value.func) in ("pd.DataFrame", "pandas.DataFrame", "pd.Series", "pandas.Series"):
+                                    yield "W4", f"{fname}|DataFrame-of-two-indexed-sources", n.lineno, f"`{ast.unparse(n)[:80]}` combines the caller's Series with `{v.id}`, which line {st.lineno} turned into a pandas object with its own 0..n-1 index: the constructor aligns the two on index labels, so inputs with a non-default or permuted index get other rows' results"
                 if t in ("pd.DataFrame", "pandas.DataFrame") and fname == "_create_input_data":
                     yield "W4", f"{fname}|DataFrame-of-series", n.lineno, f"`{ast.unparse(n)[:80]}` builds a frame from the caller's Series (label-aligned) where columns must be taken positionally"
 
